@@ -85,8 +85,13 @@ func GetExtendedSpatialIdsWithinRadiusOfLine(startPoint *object.Point, endPoint 
 	// create megaboxIds
 
 	// Determine the number of layers around the spatialID to search.
-	// All SpatialIds are virtually the same size, so use the first to measure
-	hLayers, vLayers, error := FitClearanceAroundExtendedSpatialID(idsOnLine[0], radius)
+	// All SpatialIds are virtually the same size, so use the one of the start point to measure
+	// (idsOnLine is de-duplicated through a map, so its order differs from run to run)
+	idsOnStartPoint, error := shape.GetExtendedSpatialIdsOnPoints([]*object.Point{startPoint}, hZoom, vZoom)
+	if error != nil {
+		return nil, error
+	}
+	hLayers, vLayers, error := FitClearanceAroundExtendedSpatialID(idsOnStartPoint[0], radius)
 	if error != nil {
 		return nil, error
 	}
